@@ -123,10 +123,20 @@ def main(tier, replay):
                     hid = dl[1] if len(dl) > 1 else "0"
                     if (field(pf, "class") or "none") != "none" or hid in confirmed or len(confirmed) >= 8:
                         continue
-                    r2, e2 = run_pipeline(exe, modelrun, env, [seed, hid, tier])
-                    ok2 = bool(r2) and any(l.startswith("PROPFAIL") and "class=none" in l or l.startswith("PROPFAIL") and "class=" not in l
-                                           for l in r2[1].splitlines())
-                    confirmed[hid] = ok2 or bool(e2)
+                    def fails_again():
+                        r2, e2 = run_pipeline(exe, modelrun, env, [seed, hid, tier])
+                        if e2:
+                            return True, False
+                        fl = [l for l in r2[1].splitlines() if l.startswith("PROPFAIL")]
+                        # only back-off exhaustion / hang answers (load sensitive), no wrong value?
+                        soft = bool(fl) and all(("=>\terr:resolve lock timeout" in l or "=>\terr:region unavailable" in l
+                                                 or "=>\terr:backoff" in l or "=>\terr:hang" in l or "=>\terr:skipped" in l) for l in fl)
+                        return bool(fl), soft
+                    again, soft = fails_again()
+                    if again and soft:
+                        # an answer "gave up waiting" depends on the machine load: it must reproduce twice more
+                        again = fails_again()[0] and fails_again()[0]
+                    confirmed[hid] = again
                 stats["replayed_failing_histories"] = len(confirmed)
             for pf in pfails:
                 dl = line_of(pf)
